@@ -88,6 +88,7 @@ def model_request(group, target, contents):
     listed = [b for b in group if not b.get('unlisted')]
     # strict listing: a final-named backup directory lacking its files aborts `get_backup_group(strict)`
     return {'group': listed, 'target': target, 'hashes': contents.table(sizes), 'empty_hash': store.EMPTY_SHA512,
+            'full': {hashlib.sha512(d).hexdigest(): [c, len(d)] for c, d in enumerate(contents.data, 1)},
             'strict_error': any(b.get('unlisted') for b in group)}
 
 
